@@ -30,7 +30,7 @@ LIT_NS = {"UUID": uuid.UUID, "datetime": datetime}
 
 # repr of a hashable dict key may use a builtin constructor (frozenset() is the only one met);
 # eval() supplies builtins by itself, so this is not counted as a name outside the property's list
-BUILTIN_LITERAL_NAMES = {"frozenset"}
+BUILTIN_LITERAL_NAMES = {"frozenset", "float"}     # builtins: present in every eval namespace
 
 KINDS = {"none": "KdNone", "bool": "KdBool", "int": "KdInt", "float": "KdFloat", "str": "KdStr",
          "list": "KdList", "dict": "KdDict", "any": "KdAny", "bytes": "KdBytes", "uuid4": "KdUuid",
@@ -111,23 +111,25 @@ def _nonfinite(x):
     return isinstance(x, float) and (x != x or x in (math.inf, -math.inf))
 
 
-def nonfinite_float_literal(s, depth=0):
-    """a non-finite float occurs as a parameter or dict key anywhere in the schema"""
+def nonfinite_float_literal(s, depth=0, keys_only=False, nan_only=False):
+    """a non-finite float occurs as a parameter or dict key anywhere in the schema
+    (keys_only: only as - part of - a dict key; nan_only: only NaN parameters count)"""
     if depth > 40 or not isinstance(s, Schema):
         return False
+    rec = lambda e: nonfinite_float_literal(e, depth + 1, keys_only, nan_only)   # noqa: E731
     for name in s.props:
         x = s.props.get(name)
-        if _nonfinite(x):
+        if _nonfinite(x) and not keys_only and (x != x or not nan_only):
             return True
-        if isinstance(x, Schema) and nonfinite_float_literal(x, depth + 1):
+        if isinstance(x, Schema) and rec(x):
             return True
-        if isinstance(x, (list, tuple)) and any(nonfinite_float_literal(e, depth + 1) for e in x):
+        if isinstance(x, (list, tuple)) and any(rec(e) for e in x):
             return True
         if isinstance(x, dict):
             for k, p in x.items():
-                if _nonfinite(k) or (isinstance(k, tuple) and any(_nonfinite(c) for c in k)):
+                if not nan_only and (_nonfinite(k) or (isinstance(k, tuple) and any(_nonfinite(c) for c in k))):
                     return True
-                if isinstance(p, tuple) and nonfinite_float_literal(p[0], depth + 1):
+                if isinstance(p, tuple) and rec(p[0]):
                     return True
     return False
 
@@ -261,8 +263,13 @@ def oracle(ctx, src, s, stats):
         except Exception as e:  # noqa
             problem = f"eval({label}) raises {type(e).__name__}: {e}"
         if problem:
-            if nonfinite and ctx.known_finding("F15", src):
+            # F15 (since its repair: only non-finite floats inside dict keys print as bare names);
+            # a NaN parameter rebuilds fine but is unequal to itself (F10)
+            if nonfinite_float_literal(s, keys_only=True) and ctx.known_finding("F15", src):
                 stats["f15"] += 1
+                return None
+            if nonfinite_float_literal(s, nan_only=True) and "!= S" in problem and ctx.known_finding("F10", src):
+                stats["f10"] = stats.get("f10", 0) + 1
                 return None
             rp.update(observed=problem, expected="eval(repr(S)) == S and repr(eval(repr(S))) == repr(S)")
             ctx.violation(f"repr does not round-trip: {src}", rp)
